@@ -4,3 +4,4 @@ import Codec.Utf8
 import Codec.Leaf
 import Codec.Bridge
 import Codec.Decide
+import Codec.WfImage
